@@ -19,6 +19,8 @@ import (
 type hP0 struct{ ID int }
 type hP1 struct{ ID int }
 type hP2 struct{ ID int }
+type hP3 struct{ ID int }
+type hP4 struct{ ID int }
 
 func (hP2) hIsI() {}
 
@@ -30,9 +32,11 @@ const (
 	hTP1 = 1
 	hTP2 = 2
 	hTI  = 3
+	hTP3 = 4
+	hTP4 = 5
 )
 
-var hTypeNames = []string{"P0", "P1", "P2", "I"}
+var hTypeNames = []string{"P0", "P1", "P2", "I", "P3", "P4"}
 
 func hType(t int) reflect.Type {
 	switch t {
@@ -42,6 +46,10 @@ func hType(t int) reflect.Type {
 		return reflect.TypeOf(hP1{})
 	case hTP2:
 		return reflect.TypeOf(hP2{})
+	case hTP3:
+		return reflect.TypeOf(hP3{})
+	case hTP4:
+		return reflect.TypeOf(hP4{})
 	}
 	return reflect.TypeOf((*hI)(nil)).Elem()
 }
@@ -53,6 +61,10 @@ func hMk(t int, id int) interface{} {
 		return hP0{id}
 	case hTP1:
 		return hP1{id}
+	case hTP3:
+		return hP3{id}
+	case hTP4:
+		return hP4{id}
 	}
 	return hP2{id}
 }
@@ -66,6 +78,10 @@ func hUnpack(v interface{}) (int, int) {
 		return hTP1, x.ID
 	case hP2:
 		return hTP2, x.ID
+	case hP3:
+		return hTP3, x.ID
+	case hP4:
+		return hTP4, x.ID
 	}
 	return -1, 0
 }
@@ -224,6 +240,22 @@ func hDistinct(ls []hLabel) bool {
 				return false
 			}
 			if ls[i].Name == "" && ls[j].Name == "" && ls[i].T == ls[j].T {
+				return false
+			}
+		}
+	}
+	return true
+}
+
+// hDistinctKeys is the weaker well-formedness: no repeated name, no repeated
+// (type, subtype) among the type-only entries.
+func hDistinctKeys(ls []hLabel) bool {
+	for i := range ls {
+		for j := i + 1; j < len(ls); j++ {
+			if ls[i].Name != "" && ls[i].Name == ls[j].Name {
+				return false
+			}
+			if ls[i].Name == "" && ls[j].Name == "" && ls[i].T == ls[j].T && ls[i].Sub == ls[j].Sub {
 				return false
 			}
 		}
@@ -531,9 +563,19 @@ func (w *hWorld) hBuildAll() ([]Arg, bool) {
 //	2 F-sub   subtypes {"",s,t}, names {"",a}, type P0
 //	3 F-full  names {"",a,b}, types {P0,P1}, subtypes {"",s}
 //	4 F-iface names {"",a}, types {P0,P2,I}, no subtypes
-var hNamePool = [][]string{{""}, {"", "a", "b"}, {"", "a"}, {"", "a", "b"}, {"", "a"}}
-var hTypePool = [][]int{{hTP0, hTP1, hTP2, hTI}, {hTP0, hTP1}, {hTP0}, {hTP0, hTP1}, {hTP0, hTP2, hTI}}
-var hSubPool = [][]string{{""}, {""}, {"", "s", "t"}, {"", "s"}, {""}}
+//	5 F-chain types {P0,P1,P2,P3,P4} (interchangeable: canonical first-use order is assumed), no names, no subtypes
+//	6 F-tsub  types {P0,P1,P2} (canonical order), no names, subtypes {"",s,t}
+//	7 F-nsub  names {"",a,b}, types {P0,P1}, subtypes {"",s} on type P0 only... (= F-full with canonical type order)
+var hNamePool = [][]string{{""}, {"", "a", "b"}, {"", "a"}, {"", "a", "b"}, {"", "a"}, {""}, {""}, {"", "a", "b"}}
+var hTypePool = [][]int{{hTP0, hTP1, hTP2, hTI}, {hTP0, hTP1}, {hTP0}, {hTP0, hTP1}, {hTP0, hTP2, hTI}, {hTP0, hTP1, hTP2, hTP3, hTP4}, {hTP0, hTP1, hTP2}, {hTP0, hTP1}}
+var hSubPool = [][]string{{""}, {""}, {"", "s", "t"}, {"", "s"}, {""}, {""}, {"", "s", "t"}, {"", "s"}}
+
+// families whose types are interchangeable plain structs: labels are drawn in
+// canonical (first-use) order so that the solver prunes relabelled duplicates
+var hCanonTypes = []bool{false, false, false, false, false, true, true, true}
+
+// hMaxType is the highest pool position used so far in the world being drawn.
+var hMaxType = -1
 
 // hSymLabel draws a label symbolically from the family's pools. concreteOnly
 // excludes the interface type (supplied values always have a concrete type).
@@ -544,7 +586,15 @@ func hSymLabel(fam int, tag string, concreteOnly bool) hLabel {
 		l.Name = names[vnChoice(tag+".n", len(names))]
 	}
 	if len(types) > 1 {
-		l.T = types[vnChoice(tag+".t", len(types))]
+		ti := vnChoice(tag+".t", len(types))
+		if hCanonTypes[fam] {
+			vnAssume(ti <= hMaxType+1) // types appear in first-use order
+		}
+		ti = hIota[ti]
+		if ti > hMaxType {
+			hMaxType = ti
+		}
+		l.T = types[ti]
 	} else {
 		l.T = types[0]
 	}
